@@ -286,6 +286,19 @@ def handle (toks : List String) : String :=
         | none => "skip"
       | none => "bad-op"
     | _, _ => "bad-op"
+  | "csv_series" :: rest =>
+    match whole rest with
+    | some (.list vs) =>
+      match vs.mapM Hdr.rd.dec with
+      | some hs =>
+        match Hdr.csvSeries hs with
+        | some (perRow, l) =>
+          okv (some (.list [.bool perRow, .list (l.map fun o => match o with
+            | some h => Hdr.enc h
+            | none => .none)]))
+        | none => "skip"
+      | none => "bad-op"
+    | _ => "bad-op"
   | ["split", hs, ht] =>
     match hexToStr? hs, hexToStr? (if ht = "00" then "" else ht) with
     | some sep, some t =>
